@@ -360,14 +360,14 @@ func C18(r *core.Report) {
 	c18ValueBlind(r)
 	c18ErrorSliceIsOpaque(r, "C18.R10")
 	singleSourceOfTruth(r, "C18.R11")
-	r.Floor("C18.R9", 3)
+	r.Floor("C18.R9", 2)
 	r.Floor("C18.R8", 1)
-	r.Floor("C18.R7", 2)
+	r.Floor("C18.R7", 1)
 	r.Floor("C18.R6", 1)
-	r.Floor("C18.R2", 2)
+	r.Floor("C18.R2", 1)
 	r.Floor("C18.R3", 1)
-	r.Floor("C18.R4", 2)
-	r.Floor("C18.R5", 3)
+	r.Floor("C18.R4", 1)
+	r.Floor("C18.R5", 2)
 }
 
 // c18Classification (R5): findEpochNumberFromSignature.
